@@ -455,6 +455,16 @@ func (r *rewriter) rewriteCall(c *astutil.Cursor, n *ast.CallExpr) {
 			return
 		}
 	}
+	// cmd.OutOrStdout(): the writer a command prints its report to becomes a fault point
+	if sel, ok := n.Fun.(*ast.SelectorExpr); ok && sel.Sel.Name == "OutOrStdout" && len(n.Args) == 0 {
+		if selection := r.info.Selections[sel]; selection != nil && selection.Kind() == types.MethodVal {
+			if fn, _ := selection.Obj().(*types.Func); fn != nil && fn.Pkg() != nil && fn.Pkg().Path() == "github.com/spf13/cobra" {
+				r.changed = true
+				c.Replace(call(sim("WrapStdout"), n))
+				return
+			}
+		}
+	}
 	sel, ok := n.Fun.(*ast.SelectorExpr)
 	if !ok {
 		// iter.Map[T,R](...) with explicit instantiation
